@@ -664,6 +664,26 @@ class DistinctList(object):
         return DistinctList([x for x in self.items if x not in o])
 
 
+class SymSet(DistinctList):
+    """mutable set of atoms (membership by decided equality)"""
+
+    def update(self, other):
+        for x in other:
+            if x not in self:
+                self.items.append(x)
+
+    def add(self, x):
+        if x not in self:
+            self.items.append(x)
+
+
+def _dl_rsub(self, o):
+    return DistinctList([x for x in o if x not in self])
+
+
+DistinctList.__rsub__ = _dl_rsub
+
+
 def m_set(interp, it=()):
     xs = list(interp.iterate(it))
     if not any(is_sym(x) or isinstance(x, (SymStr, CatStr)) for x in xs):
@@ -698,6 +718,9 @@ def m_dict(interp, *a, **kw):
 def m_sorted(interp, it, key=None, reverse=False):
     xs = list(interp.iterate(it))
     if key is None:
+        if xs and all(isinstance(x, SymStr) for x in xs):
+            trusted("sorted(xs) is a permutation of xs (the order among symbolic names is left unspecified)")
+            return list(xs)
         if any(is_sym(x) for x in xs):
             raise Unsupported("sorting symbolic values")
         return sorted(xs, reverse=reverse)
@@ -833,7 +856,17 @@ class SymStr(object):
         if old == "'" and new == "''":
             trusted("str.replace(\"'\", \"''\"): quote doubling esc(s), a function of s (characterised "
                     "pointwise in harness path_roundtrip)")
-            return SymStr(sym._lift(z3.Function("esc", z3.IntSort(), z3.IntSort())(_z(self.ident))), "esc")
+            f = z3.Function("esc", z3.IntSort(), z3.IntSort())
+            st = sym.get_state()
+            x = _z(self.ident)
+            if st is not None:
+                seen = st.ghost.setdefault("esc_args", [])
+                for y in seen:
+                    if not z3.eq(x, y):
+                        st.add_fact(z3.Implies(f(x) == f(y), x == y))     # quote doubling is injective
+                if not any(z3.eq(x, y) for y in seen):
+                    seen.append(x)
+            return SymStr(sym._lift(f(x)), "esc")
         raise Unsupported("str.replace%r on a symbolic string" % ((old, new),))
 
     def encode(self, encoding="utf-8", errors="strict"):
